@@ -76,7 +76,7 @@ def cross_leaf(rng, doc):
         # a LITERAL mapping whose key looks like a path spec (written with the escaped key in specs)
         return L(rng.choice(["equal_to", "not_equal_to", "in_"]), "none",
                  [rng.choice([{"path": ["a"]}, {"path.length": ["a", 0], "b": 1}, {"a": {"path": [1]}},
-                              {"b": 1, "path": ["a"]}, {"mode": "x", "path.first": ["a"], "z": None}])])
+                              {"b": 1, "path": ["a"]}, {"mode": "x", "path.first": ["a"], "z": None}] + gen.PATHLIKE_EXTRA)])
     return (rng.choice(["and", "or", "xor"]), L("equal_to", "none", [p]), L("less_than", "none", [path_arg(rng, doc)]))
 
 
